@@ -409,7 +409,9 @@ func genE2EMBinCase(r *rand.Rand) string {
 	}
 	// EXPRESSIONS: scalar operands (also on the left, also computed), unary minus, on()/ignoring() over subsets of the keys
 	// (arithmetic, comparisons and the set operators), nesting up to depth 3, at most 3 vector operands
-	isCmp := func(op string) bool { return op == "eq" || op == "ne" || op == "gt" || op == "lt" || op == "ge" || op == "le" }
+	isCmp := func(op string) bool {
+		return op == "eq" || op == "ne" || op == "gt" || op == "lt" || op == "ge" || op == "le"
+	}
 	isSet := func(op string) bool { return op == "and" || op == "or" || op == "unless" }
 	scalar := func() string {
 		switch r.Intn(8) {
@@ -1949,7 +1951,7 @@ func execE2EM(line string) Result {
 				// used to cut them at the length of ONE of these names, picked by map iteration order
 				sig = "e2em/in-class/mixed-name-vector-operand"
 			}
-			if q.lv != "" && len(cl) == 0 {
+			if q.lv != "" {
 				// (repaired, c09-24) the rotated tags tree of a key was read for its first metric only
 				names := map[string]bool{}
 				for _, s := range sers {
